@@ -84,7 +84,7 @@ elif sys.argv[1] == 'run':
         res.update(caught)
         meta['result'] = res
         meta['repo_commit'] = subprocess.check_output(['git', '-C', REPO, 'log', '--format=%h', '-1']).decode().strip()
-        meta['verif_commit'] = subprocess.check_output(['git', '-C', ROOT, 'log', '--format=%h', '-1']).decode().strip()
+        meta['verif_commit'] = os.environ.get('SEED_VERIF_COMMIT') or subprocess.check_output(['git', '-C', ROOT, 'log', '--format=%h', '-1']).decode().strip()
         meta['ran'] = 'tools/run_seed.sh patch.diff ' + ' '.join(props) + ' (git -C /repo apply; bin/check <prop> --seed 1, then --seed 2 if not detected; git -C /repo checkout -- .)'
         json.dump(meta, open(os.path.join(d, 'meta.json'), 'w'), indent=1)
         print(os.path.basename(d), {p: (c['detected'], c['with_failing_input']) for p, c in caught.items()})
